@@ -35,7 +35,10 @@ def std_dataset(rng, **kw):
 def respell(rng, D):
     """randomly re-spell paralog nests / member order on the raw elements (same meaning)"""
     r = rng.random()
-    if r < 0.5:
+    # species-level TaxRange groups (gen.species_wrap) are NOT generated here: a leaf has no child clades, so
+    # such files are outside the properties' "consistent" domain (DESIGN §6, D7); on the unchanged tree they
+    # trip the paralog_stack depth patch and break C02/C05 -- an observation, never an alarm.
+    if r < 0.55:
         D.groups = gen.nest_paralogs(rng, D.groups)
         D.meta['nested'] = True
     if rng.random() < 0.3:
@@ -79,6 +82,8 @@ class Explorer(object):
             self.res.count('cases_with_polytomy')
         if D.meta.get('nested'):
             self.res.count('cases_with_nested_paralogGroups')
+        if D.meta.get('species_level'):
+            self.res.count('cases_with_species_level_groups')
         self.res.count('families', len(D.families))
         self.res.count('genes', st['genes'])
         if len(self.res.samples) < 3:
